@@ -56,6 +56,8 @@ class FnInfo:
         self.orig_text = None
         self.has_contract = False
         self.verus_names = []
+        self.probes = []
+        self.lost = []
 
 
 def _registry_path(spec):
@@ -143,7 +145,7 @@ def _count_asserts(text):
     return len(re.findall(r"\bassert\s*\(|\bassert\s+forall\b", lex.mask(text)))
 
 
-def build_fn(unit, file_spec, item_spec, opts, sections, log):
+def build_fn(unit, file_spec, item_spec, opts, sections, log, probes=False):
     src = load_source(file_spec)
     try:
         a, b = src.find(item_spec)
@@ -162,7 +164,7 @@ def build_fn(unit, file_spec, item_spec, opts, sections, log):
             m = re.match(r"sub\s+`(.*)`\s*=>\s*`(.*)`", key, re.S)
             text, n = re.subn(m.group(1), m.group(2), text)
             if n == 0:
-                raise AssembleError("lost anchor: sub `%s` matched nothing in %s" % (m.group(1), item_spec))
+                info.lost.append("sub `%s` matched nothing" % m.group(1))
             log.hit("R8 per-function substitution `%s` => `%s`" % (m.group(1), m.group(2)), n)
     is_fn = re.match(r"\s*(const\s+)?(unsafe\s+)?fn\b", text) is not None
     newname = None
@@ -282,9 +284,11 @@ def build_fn(unit, file_spec, item_spec, opts, sections, log):
             cnt += 1
         total = text.count(anchor)
         if pos < 0:
-            raise AssembleError("lost anchor: `%s`#%d in %s" % (anchor, occ, item_spec))
+            info.lost.append("anchor `%s`#%d not found" % (anchor, occ))
+            continue
         if m.group(3) is None and total != 1:
-            raise AssembleError("lost anchor: `%s` occurs %d times in %s (give #k)" % (anchor, total, item_spec))
+            info.lost.append("anchor `%s` occurs %d times" % (anchor, total))
+            continue
         for body in secd[key]:
             nproof += 1
             na = _count_asserts(body)
@@ -306,6 +310,19 @@ def build_fn(unit, file_spec, item_spec, opts, sections, log):
                 else:
                     p = lex.match_close(masked, ob)
                     edits.append((p, 0, [(ln, c) for ln in body.split("\n")] + [("", None)]))
+
+    info.probes = []
+    if probes:
+        def probe(pos, what):
+            c = {"id": "probe:" + what, "kind": "probe", "text": what}
+            info.probes.append(c)
+            edits.append((pos, 9, [("", None), ("assert(false); // VP-PROBE %s" % what, c)]))
+        if "requires" in secd:
+            probe(ob + 1, "requires")
+        for key in secd:
+            m = re.match(r"loop\s+(\d+)$", key)
+            if m and "invariant" in "\n".join(secd[key]):
+                probe(loops[int(m.group(1)) - 1] + 1, "loop%s.invariant" % m.group(1))
 
     info.clauses.append({"id": "safety", "kind": "safety",
                          "text": "no overflow / out-of-bounds index / failed unwrap-expect / reachable panic! / violated callee precondition in the body"})
@@ -341,7 +358,7 @@ def build_fn(unit, file_spec, item_spec, opts, sections, log):
     return final, info, rel
 
 
-def assemble(unit, template_text=None):
+def assemble(unit, template_text=None, probes=False):
     """-> (assembled_text, [FnInfo], rewrite log counts)"""
     tpath = os.path.join(VERIF, "units", unit + ".rs")
     if template_text is None:
@@ -371,7 +388,7 @@ def assemble(unit, template_text=None):
         if not hm:
             raise AssembleError("bad directive head: %r" % head)
         kind, file_spec, item_spec, opts = hm.group(1), hm.group(2), hm.group(3), (hm.group(4) or "").split()
-        text, info, rel = build_fn(unit, file_spec, item_spec, opts, sections, log)
+        text, info, rel = build_fn(unit, file_spec, item_spec, opts, sections, log, probes)
         # indent to the directive's column
         col = len(seg) - (seg.rfind("\n") + 1) if "\n" in seg else 0
         info.line_start = cur_line
